@@ -274,6 +274,11 @@ fn offset_opt(o: &Off) -> Option<Offset> {
 
 fn dataoperator(op: &str, v: &Val, style: IdStyle) -> DataOperator<'static> {
     let base: DataOperator<'static> = match (op.trim_start_matches('!'), v.t.as_str()) {
+        ("or", "list") => DataOperator::Or(v.l.iter().map(|e| dataoperator("=", e, style)).collect()),
+        ("and", "list") => DataOperator::And(vec![DataOperator::GreaterThan(v.l[0].n as isize), DataOperator::LessThan(v.l[1].n as isize)]),
+        ("has", "str") => DataOperator::HasElement(std::borrow::Cow::Owned(style.conc(&v.s))),
+        ("has", "int") => DataOperator::HasElementInt(v.n as isize),
+        ("has", "float") => DataOperator::HasElementFloat(v.n as f64 / 2.0),
         ("=", "any") => DataOperator::Any,
         ("=", "null") => DataOperator::Null,
         ("=", "bool") => {
@@ -309,7 +314,7 @@ fn dataoperator(op: &str, v: &Val, style: IdStyle) -> DataOperator<'static> {
         }
         (o, t) => panic!("harness: no data operator for {} {}", o, t),
     };
-    if op == "!=" {
+    if op.starts_with('!') {
         DataOperator::Not(Box::new(base))
     } else {
         base
